@@ -123,7 +123,10 @@ pub fn limit_family(seed: u64) -> Vec<u8> {
             out.push(b'.');
         }
     }
-    for n in 1..=4usize {
+    for n in [1usize, 2, 3, 4, 255, 256, 257, 300] {
+        if n > 4 && seed % 4 != 0 {
+            continue;       // counters of a byte's width: one shard in four
+        }
         for intro in [&b"\x1b"[..], &b"\x1b["[..], &b"\x1bP"[..]] {
             out.extend_from_slice(intro);
             for i in 0..n {
